@@ -218,7 +218,7 @@ class Execution:
 
 def limit_for(conf, nw):
     n = abs(int(conf['n']))
-    return 64 * (min(n, 2000) + nw) + 2000
+    return 40 * (min(n, 2000) + nw) + 400
 
 
 def execute(conf, nw, prefix=(), macro=False, seed=None, stick=0.0, record_choices=False):
@@ -272,6 +272,8 @@ def explore(conf, nw, macro, cap):
         if "error" in r:
             return [r], True
         out.append(r)
+        if r["nonterminating"] or r["errors"]:
+            return out, False     # a failing execution was found: no point in enumerating its siblings
         pre = list(prefix)
         for _, w, en in r["choices"]:
             for alt in en:
@@ -324,9 +326,15 @@ def main():
     req = json.load(sys.stdin)
     out = {}
     tr = []
+    hung = 0
     for t in req.get("traces", []):
+        if hung >= 2:
+            tr.append({"skipped": True})   # two executions already ran into the turn limit
+            continue
         tr.append(execute(t["conf"], t["nw"], prefix=t.get("prefix", ()), macro=t.get("macro", False),
                           seed=t.get("seed"), stick=t.get("stick", 0.0)))
+        if tr[-1].get("nonterminating"):
+            hung += 1
     out["traces"] = tr
     ex = []
     for t in req.get("explore", []):
